@@ -6,6 +6,8 @@ import re
 
 NOTE_TYPES = ["note", "warning", "todo", "bug", "history"]
 TRACER_RE = re.compile(r"z[qm]\d+[a-z]\d+(?:x\d+)?")
+MARK_TOKENS = ["k!>k", "k!*k", "k!|k", "k!!k", "k!^k", "k!%k", "k!~k", "k!@k", "k!#k"]
+MARKTOK_RE = re.compile(r"k![>*|!<^%~@#]k")
 BLOCK_TAGS = r"p|li|div|pre|h[1-6]|ul|ol|br|td|th|tr|table|blockquote|dt|dd|dl|hr|section"
 
 
@@ -50,6 +52,10 @@ def gen_body(rng, ident, allow=("para", "bullets", "numbered", "fenced", "indent
         if kind == "para":
             for _ in range(rng.randint(1, 3)):
                 lines.append(w.take(rng.randint(1, 5)))
+                if rng.random() < 0.12:
+                    # text that looks like a doc marker pair: part of the documentation, verbatim
+                    lines[-1] += " " + rng.choice(MARK_TOKENS) + " " + w.take(1)
+                    feats.add("marker_pair_inside_text")
         elif kind == "bullets":
             mark = rng.choice(["*", "-", "+"])
             for _ in range(rng.randint(2, 3)):
